@@ -460,7 +460,8 @@ def generate_fold():
 
 def generate_aliases():
     import codecs, encodings, encodings.aliases, pkgutil
-    want = {'utf-8': 'CUtf8', 'iso8859-1': 'CLatin1', 'ascii': 'CAscii'}
+    want = {'utf-8': 'CUtf8', 'iso8859-1': 'CLatin1', 'ascii': 'CAscii', 'utf-16': 'CUtf16', 'utf-16-le': 'CUtf16LE',
+            'utf-16-be': 'CUtf16BE', 'utf-32': 'CUtf32', 'utf-32-le': 'CUtf32LE', 'utf-32-be': 'CUtf32BE'}
     def ident(name):
         try: n = codecs.lookup(name).name
         except LookupError: return None
@@ -473,10 +474,12 @@ def generate_aliases():
            % sys.version.split()[0]]
     out.append('Require Import OV.Base.Bytes.')
     out.append('Open Scope N_scope.')
-    out.append('Inductive codec_id := CUtf8 | CLatin1 | CAscii.')
-    out.append('(* keys of encodings.aliases.aliases that resolve to one of the three modelled codecs *)')
+    out.append('Inductive codec_id := CUtf8 | CLatin1 | CAscii | CUtf16 | CUtf16LE | CUtf16BE | CUtf32 | CUtf32LE | CUtf32BE.')
+    out.append('(* byte order the BOM-writing codecs utf-16 / utf-32 use on this machine (sys.byteorder) *)')
+    out.append('Definition native_le : bool := %s.' % ('true' if sys.byteorder == 'little' else 'false'))
+    out.append('(* keys of encodings.aliases.aliases that resolve to one of the modelled codecs *)')
     out.append('Definition codec_aliases : list (str * codec_id) := [%s].' % '; '.join('(%s, %s)' % (lit(k), v) for k, v in al))
-    out.append('(* module names of the encodings package that are one of the three modelled codecs *)')
+    out.append('(* module names of the encodings package that are one of the modelled codecs *)')
     out.append('Definition codec_modules : list (str * codec_id) := [%s].' % '; '.join('(%s, %s)' % (lit(k), v) for k, v in mods))
     return '\n'.join(out) + '\n'
 
